@@ -622,7 +622,9 @@ runLoop:
 			queue := c.undecryptablePacketsToProcess
 			c.undecryptablePacketsToProcess = nil
 			for _, p := range queue {
-				processed, err := c.handleOnePacket(p.receivedPacket, p.datagramID)
+				// The bytes of these packets were already credited to the
+				// anti-amplification limit when the datagram was first received.
+				processed, err := c.handleReceivedPacket(p.receivedPacket, p.datagramID)
 				if err != nil {
 					c.setCloseError(&closeError{err: err})
 					break runLoop
@@ -1052,7 +1054,14 @@ func (c *Conn) handlePackets() (wasProcessed bool, _ error) {
 
 func (c *Conn) handleOnePacket(rp receivedPacket, datagramID qlog.DatagramID) (wasProcessed bool, _ error) {
 	c.sentPacketHandler.ReceivedBytes(rp.Size(), rp.rcvTime)
+	return c.handleReceivedPacket(rp, datagramID)
+}
 
+// handleReceivedPacket processes a datagram whose size has already been counted
+// towards the anti-amplification limit (see RFC 9000, section 8.1).
+// Every datagram must be counted exactly once, even if (some of) its packets are
+// queued because the keys are not yet available, and processed again later.
+func (c *Conn) handleReceivedPacket(rp receivedPacket, datagramID qlog.DatagramID) (wasProcessed bool, _ error) {
 	if wire.IsVersionNegotiationPacket(rp.data) {
 		return false, c.handleVersionNegotiationPacket(rp)
 	}
